@@ -252,7 +252,13 @@ class Computed:
                             # if yes, compare old and new values for all
                             # tracked observables on this parent
                             for name, old_value in self.parents[parent].items():
-                                new_value = getattr(parent, name)
+                                try:
+                                    new_value = getattr(parent, name)
+                                except Exception:
+                                    # a Computable we read last time raises now: that is not
+                                    # "unchanged"; whether it matters is up to the function
+                                    changed = True
+                                    break
                                 if new_value != old_value:
                                     changed = True
                                     break  # we need to recalculate
